@@ -116,11 +116,17 @@ func P(site string) {
 	case ModeCount:
 		c.mu.Unlock()
 	case ModeSerial:
+		// bursty delays: mostly 1 ns (the goroutine keeps going), often up to 5 us (another goroutine overtakes by a few
+		// statements), and now and then a stall of up to 500 us during which everybody else runs to completion - the
+		// schedules in which one party sits between two of its statements while a whole Resume + consumer run goes by
 		var d int64
-		if c.rng.Intn(100) < 70 {
+		switch r := c.rng.Intn(100); {
+		case r < 66:
 			d = 1
-		} else {
+		case r < 95:
 			d = int64(1 + c.rng.Intn(5000))
+		default:
+			d = int64(20000 + c.rng.Intn(480000))
 		}
 		now := time.Now().UnixNano()
 		for {
